@@ -8,7 +8,7 @@ AREA = "c07"
 LEAN_PROPS = "Litep2pVerif.Props.C07"
 THEOREMS = ["exit_reports_closed_once", "tcploop_exit_reports_closed_once", "protocols_before_manager", "live_protocols_all_told",
             "app_closed_iff_last", "established_survives_dead_protocol", "loop_usable_after_protocol_exit",
-            "redial_after_close"]
+            "accept_established_then_closed", "redial_after_close"]
 MANIFEST = {
     "text": "Lean 4 theorems about an operational model of the TCP connection event loop (every exit incl. the `?` exits), of "
             "ProtocolSet::report_connection_{established,closed} over bounded FIFO channels with suspended sends, of the "
@@ -24,13 +24,21 @@ MANIFEST = {
             "TcpConnection::start loop driven over loopback TCP+noise+yamux with adapter-owned event sources (remote substreams "
             "and their negotiation, protocol handles, commands, receivers) against the permit-aware loop model "
             "Model/Conn/Permits.lean in checker mode (every order of the branches select! may take), incl. the no-permit exit "
-            "and its race with the idle exit repeated over fresh connections; a property-level oracle on all three. "
+            "and its race with the idle exit repeated over fresh connections; protocol/manager channels held FULL over real time "
+            "while the connection ends (6 s against hard-coded bounds, 1.5 s with the configurable timeouts made small) and "
+            "the REAL future of TcpTransport::accept driven with a full channel (model Model/Conn/Accept.lean; theorem "
+            "accept_established_then_closed: the future never resolves Err, so an accept is never abandoned after some "
+            "protocols were told, nothing is reported closed before the loop exists, and whoever was told established is "
+            "told closed exactly once when the loop returns); a property-level oracle on all three. "
             "Defects §8 (h) and (i) are repaired by two fix: commits and the theorems hold at full strength.",
     "note": "Trusted: Lean kernel; axioms propext/Classical.choice/Quot.sound; the hand-written models and their tie (S1 "
             "deterministic differential runs; S2 sampled real-node scenarios, thread schedules of the real runtime are "
             "sampled, the proof covers all schedules of the model); tokio mpsc semantics (bounded FIFO, reserved slot for a "
             "suspended sender, closed on receiver drop) as modelled; yamux, multistream-select and TCP outside the model; "
-            "only the TCP transport's loop is modelled.",
+            "only the TCP transport's loop is modelled. Real time in the tcploop area: the model has no clock — on the code as "
+            "modelled the passage of time enables nothing but negotiation timeouts (sot=), which are may-transitions; a "
+            "time-bounded report shorter than the holds used (1.5 s from configuration, 6 s hard-coded) is detected, a longer "
+            "hard-coded bound is not.",
     "technique": "Lean 4 proof (invariant over a small-step LTS of the connection task and its channels) + "
                  "model/implementation correspondence (component-in-a-box and real loopback nodes)",
     "design_ref": "DESIGN.md §7 C07, §8 (h)(i)",
@@ -42,23 +50,29 @@ RULE = ("S1: operation sequences on the real ProtocolSet (<=3 protocols, channel
         "full observation the loop+manager+accept models must predict; tcploop: fixed, race (remote substream + last holder "
         "released before the loop is polled), negotiation-spanning and seeded random operation sequences on the real "
         "TcpConnection loop (1-3 protocols, keep-alive yes/no), every observation checked against the set the permit-aware "
-        "model allows. A case is non-trivial if a report call was made with "
+        "model allows; plus channel capacities 1-3, fill/pause/resume of protocols and the manager, real-time holds (sleep), "
+        "connections accepted through the real TcpTransport::accept with full/paused/dead receivers, half-closed substreams. "
+        "A case is non-trivial if a report call was made with "
         "a dead or full receiver, or it is a conclusive S2 scenario; distinct = distinct (ops, observations) by SHA-256")
 TRUSTED_BASE = ["Lean 4.33 kernel", "axioms: propext, Classical.choice, Quot.sound only",
-                "hand-written models Model/Conn/Close.lean, Model/Conn/Loop.lean, Model/Conn/Permits.lean tied to protocol_set.rs, "
+                "hand-written models Model/Conn/Close.lean, Model/Conn/Loop.lean, Model/Conn/Permits.lean, Model/Conn/Accept.lean tied to protocol_set.rs, "
                 "tcp/connection.rs (start, run_event_loop, handle_yamux_substream, handle_negotiated_substream, "
                 "handle_protocol_command), tcp/mod.rs (accept), manager/{mod,peer_state}.rs by this correspondence run",
                 "adapters /repo/src/verif/c07.rs, /repo/src/verif/tcploop.rs, harness, verif.py, checks/c07.py, checks/tcploop.py",
                 "tcploop: quiescence of the hand-polled futures is detected through TCP_INFO byte counters of the two loopback "
                 "sockets (nothing in flight) and waker flags; which ready select! branch is taken is sampled (the model allows "
-                "every order, the race arrangement is repeated over fresh connections)",
+                "every order, the race arrangement is repeated over fresh connections); `sleep` lets real time pass while the "
+                "adapter polls whatever timers wake; the accept path uses a real TcpTransport (no listener) whose executor hands "
+                "the spawned connection task to the adapter, so the task's result (Ok/Err) is not observable there",
                 "tokio mpsc channel semantics as modelled; FuturesUnordered polls every pending send when woken",
                 "HashMap iteration order modelled as an arbitrary permutation (theorems hold for every order)",
                 "yamux / multistream-select / noise / TCP not modelled: their outcomes are inputs of the loop model"]
 ASSUMPTIONS = ["loopback TCP on 127.0.0.1 is available; an S2 scenario in which the two nodes never connect is reported as "
                "inconclusive and not compared",
                "an expected event arrives within 6 s on this machine (absence within the timeout is a distinct observation)",
-               "connection ids are fresh (shared atomic counter)"]
+               "connection ids are fresh (shared atomic counter)",
+               "tcploop real-time holds: a bound on a report that the code derives from configuration is at most the configured "
+               "value (1 s in the adapter), a hard-coded one below 6 s; longer bounds would need longer holds (thorough tier)"]
 KEEP_PREFIX = 1
 
 CAUSES = ["remote_drop", "force_close", "keepalive", "live_substream", "dead_substream"]
